@@ -45,7 +45,7 @@ def baseSizeOk (b : Base) (s : Nat) : Bool :=
   | .v6u | .v6m => 1 ≤ s && s ≤ 17
   | .v4mpls | .v6mpls => 4 ≤ s && s ≤ 32
   | .v4vpn | .v6vpn => 12 ≤ s && s ≤ 32
-  | .v4rt => 1 ≤ s && s ≤ 13
+  | .v4rt => s == 1 || (5 ≤ s && s ≤ 13)
   | .v4fs => s == 1 || (3 ≤ s && s ≤ 240) || (242 ≤ s && s ≤ 4097)
   | .v6fs => (1 ≤ s && s ≤ 240) || (242 ≤ s && s ≤ 4097)
   | .vpls => s == 19
@@ -78,25 +78,46 @@ def toks (f : Fam) : List String → Option (List Nat)
 /-- the family default stands for "`set_nexthop` not called" (nexthop.rs:25 `NextHop::new(A::afi_safi())`) -/
 def defaultNh (f : Fam) : NextHop :=
   match f.b with
-  | .v4u | .v4m | .v4mpls | .v4rt | .vpls | .evpn => .v4
-  | .v6u | .v6m | .v6mpls => .v6
+  | .v4u | .v4mpls | .v4rt | .vpls | .evpn => .v4
+  | .v4m => .m4
+  | .v6u | .v6mpls => .v6
+  | .v6m => .m6
   | .v4vpn => .vpn4
   | .v6vpn => .vpn6
   | .v4fs | .v6fs => .empty
 
-/-- a next-hop token: the argument of `set_nexthop` (if it is called) and whether
-`set_nexthop_ll_addr` is called after it -/
-def nhOf : String → Option (Option NextHopArg × Bool)
-  | "-" => some (none, false)
-  | "v4" => some (some (.known .v4), false) | "m4" => some (some (.known .v4), false)
-  | "v6" => some (some (.known .v6), false)
-  | "ll" => some (some (.known .ll), false)
-  | "ll2" => some (some (.known .v6), true)
-  | "ll3" => some (none, true)
-  | "v4ll" => some (some (.known .v4), true)
-  | "vpn4" => some (some (.known .vpn4), false) | "vpn6" => some (some (.known .vpn6), false)
-  | "empty" => some (some (.known .empty), false)
-  | "unimpl" => some (some .unimplemented, false)
+/-- what a next-hop token stands for: BEFORE the announcements are added the argument of
+`set_nexthop` (if it is called) and whether `set_nexthop_ll_addr` follows; AFTER them the same two -/
+structure NhPlan where
+  pre : Option NextHopArg := none
+  preLl : Bool := false
+  post : Option NextHopArg := none
+  postLl : Bool := false
+
+def nhOf : String → Option NhPlan
+  | "-" => some {}
+  | "v4" => some { pre := some (.known .v4) } | "m4" => some { pre := some (.known .m4) }
+  | "v6" => some { pre := some (.known .v6) } | "m6" => some { pre := some (.known .m6) }
+  | "ll" => some { pre := some (.known .ll) }
+  | "ll2" => some { pre := some (.known .v6), preLl := true }
+  | "ll3" => some { preLl := true }
+  | "v4ll" => some { pre := some (.known .v4), preLl := true }
+  | "m6ll" => some { pre := some (.known .m6), preLl := true }
+  | "vpn4" => some { pre := some (.known .vpn4) } | "vpn6" => some { pre := some (.known .vpn6) }
+  | "empty" => some { pre := some (.known .empty) }
+  | "unimpl" => some { pre := some .unimplemented }
+  | "pll" => some { postLl := true }
+  | "pv6" => some { post := some (.known .v6) }
+  | "pv6ll" => some { post := some (.known .v6), postLl := true }
+  | _ => none
+
+/-- `<len>`, or `<len>+mp14` / `<len>+mp15` / `<len>+mp`: the attribute map additionally holds a raw
+(Unimplemented) copy of MP_REACH_NLRI / MP_UNREACH_NLRI / both.  `from_attributes_builder` drops
+these (fix C06-0006), so the builder is the one of `<len>` alone. -/
+def attrsOf (s : String) : Option Nat :=
+  match s.splitOn "+" with
+  | [a] => num a
+  | [a, x] => if x == "mp14" || x == "mp15" || x == "mp" then num a else none
   | _ => none
 
 /-- tokens up to the first "ann" -/
@@ -121,24 +142,28 @@ def parse (ws : List String) : Option (String × Option (B Nat)) :=
           else if wt == ["e"] then some none
           else (toks f wt).map some
         let ann : Option (List Nat) := if at_ == ["-"] then some [] else toks f at_
-        match wd, ann, nhOf k, num len with
-        | some wd, some ann, some (arg, ll), some al =>
+        match wd, ann, nhOf k, attrsOf len with
+        | some wd, some ann, some pl, some al =>
           if al == 1 || al == 2 then none else
           if op != "split" && op != "iter" && op != "take" && op != "single" then none else
           let b0 : B Nat := { wd := wd, ann := none, attrs := if al == 0 then [] else [al] }
-          -- set_nexthop (if a next hop is given), set_nexthop_ll_addr (if asked), then the announcements
-          let b1 : Option (B Nat) :=
-            match (match arg with | none => some b0 | some a => setMpNexthop b0 a) with
+          let step (b : B Nat) (arg : Option NextHopArg) (ll : Bool) : Option (B Nat) :=
+            match (match arg with | none => some b | some a => setMpNexthop b a) with
             | none => none
             | some b => if ll then setNexthopLl b else some b
-          match b1 with
+          -- set_nexthop (if a next hop is given), set_nexthop_ll_addr (if asked), the announcements
+          -- (`add_announcement`: the family's default next hop if there is no MP_REACH builder yet),
+          -- then the same two calls again if the token asks for them after the announcements
+          match step b0 pl.pre pl.preLl with
           | none => some (op, none)
           | some b1 =>
             let annB : Option (List Nat × NextHop) :=
               match b1.ann with
               | some (_, x) => some (ann, x)
               | none => if ann.isEmpty then none else some (ann, defaultNh f)
-            some (op, some { b1 with ann := annB })
+            match step { b1 with ann := annB } pl.post pl.postLl with
+            | none => some (op, none)
+            | some b2 => some (op, some b2)
         | _, _, _, _ => none
       | _ => none
     | _, _ => none
@@ -155,9 +180,10 @@ def desc (m : Msg Nat) : String :=
     | none => 0
   s!"{m.lenField}:{m.wdList.length}:{m.annList.length}:{attrsLen m.attrs}:{nh}:{m.attrLenField}"
 
+/-- the property only says "an error": which `ComposeError` it is stays out of the reply -/
 def item : Res (Msg Nat) → String
   | .ok m => desc m
-  | .err e => s!"E:{errName e}"
+  | .err _ => "E"
   | .panic => "PANIC"
 
 def join (l : List String) : String := " ".intercalate l
@@ -177,7 +203,7 @@ def handle (ws : List String) : String :=
         if rs.any (fun r => match r with | .panic => true | _ => false) then "panic" else
         match intoMessages id bound b with
         | .ok ms => s!"ok {ms.length} {join (ms.map desc)}"
-        | .err e => s!"err {errName e}"
+        | .err _ => "err"
         | .panic => "panic"
         | .outOfFuel => "hang"
     | "iter" =>
